@@ -278,6 +278,26 @@ def run(chk, repo, tier):
     chk.clause('C20-g', 'hex_ring yields 6*radius hexagons; hex_segments counts 1+3k(k+1)-|drop|', 3)
     chk.clause('C20-h', 'hexagonal grid: axial -> cartesian map, (row, col) = (-y, x), pitch seg_radius + seg_gap/2', 4)
     chk.clause('C20-s', 'no helper mixes two different axes of one array (package-wide shape inference over util/helper/shape/segmented)', 1)
+    chk.clause('C20-i', 'a drawn shape honours the shift it is given exactly (fractional shifts reach the coordinate mesh unrounded)', 3)
+    for key in ('shape.circle', 'shape.hexagon', 'shape.rectangle'):
+        sf, sp, _ = analyse(repo, key, config={'shift': pair('shift')}, inline=['shape.rectangle'] if key != 'shape.rectangle' else [])
+        oks, ns, dets = True, 0, ''
+        shift_atoms = {a for i in pair('shift').items for a in nf.value_atoms(i)}
+        for p in returns(sp):
+            ns += 1
+            vals = [p.ret] + [v for e in p.events if e.kind == 'call' for v in (e.data.get('bound') or {}).values()]
+            for v in vals:
+                if v is None:
+                    continue
+                for a in nf.value_atoms(v):
+                    if is_app(a, ('cast', 'm:astype', 'floor', 'ceil', 'round', 'fix', 'int', 'rint', 'trunc')) and a[2] \
+                            and shift_atoms & nf.value_atoms(a[2][0]):
+                        dt = repr(a[2][1]) if len(a[2]) > 1 else ''
+                        if a[1] in ('cast', 'm:astype') and 'int' not in dt:
+                            continue
+                        oks, dets = False, f'{nf.fmt_atom(a)[:100]} rounds the shift'
+        chk.ob('C20-i', 'D-flow', key, 'the shift is used as given: never rounded or cast to an integer', oks and ns > 0,
+               dets or f'{ns} path(s)', sf.loc())
     chk.not_decided += ['translation/half-turn symmetry of drawn shapes, equal areas, non-overlap, border clearance']
     pad_rules(chk, repo)
     helper_rules(chk, repo)
